@@ -2,54 +2,11 @@
    hashing.Salted(salt, data...) = sha256(data... ‖ salt);  hashing.Do(data...) = sha256(concat data). *)
 From Coq Require Import Uint63 ZArith.
 From QV Require Import Base.Util Base.HashSig Base.Sha256.
+From QV Require Export Base.Layout.
 
 Definition bytes := list int.
 
 Definition byte_of_N (x : N) : int := Uint63.of_Z (Z.of_N x).
-
-Fixpoint bits_val (bs : list bool) (acc : N) : N :=
-  match bs with [] => acc | b :: r => bits_val r (2 * acc + if b then 1 else 0) end.
-
-(* The byte layouts, generic in the type of a byte (so that Base/Enc.v can prove their unambiguity without the
-   primitive-integer axioms); the executable instance below uses Uint63 bytes. *)
-Section Layout.
-  Variable B : Type.
-  Variable byte : N -> B.
-
-  (* n bytes, big endian *)
-  Fixpoint be_bytesG (n : nat) (x : N) : list B :=
-    match n with
-    | O => []
-    | S k => be_bytesG k (x / 256) ++ [byte (x mod 256)]
-    end.
-
-  Definition pos10G (i : N) (h : nat) : list B := be_bytesG 8 (i mod 2^64) ++ be_bytesG 2 (N.of_nat h mod 2^16).
-
-  Fixpoint bytes_of_bitsG (fuel : nat) (bs : list bool) : list B :=
-    match fuel with
-    | O => []
-    | S f => match bs with
-             | [] => []
-             | _ => byte (bits_val (firstn 8 bs) 0) :: bytes_of_bitsG f (skipn 8 bs)
-             end
-    end.
-  Definition hpos_bytesG (p : hpos) : list B :=
-    let '(bits, h) := p in
-    let all := bits ++ repeat false h in
-    be_bytesG 2 (N.of_nat h mod 2^16) ++ bytes_of_bitsG (length all) all.
-
-  Definition encG (x : hin (list B) (list B) (list B)) : list B :=
-    match x with
-    | HBare i h => pos10G i h
-    | HLeaf e i => e ++ pos10G i O
-    | HPart l i h => l ++ pos10G i h
-    | HFull l r i h => l ++ r ++ pos10G i h
-    | YDef0 => [byte 0; byte 0]
-    | YDef a b => a ++ b
-    | YLeaf v p => v ++ hpos_bytesG p
-    | YNode a b p => a ++ b ++ hpos_bytesG p
-    end.
-End Layout.
 
 Definition be_bytes : nat -> N -> bytes := be_bytesG int byte_of_N.
 Definition pos10 : N -> nat -> bytes := pos10G int byte_of_N.
